@@ -261,6 +261,11 @@ func (t *tr) pcs(e ast.Expr, cond bool, hoist *[]*ast.CallExpr) []string {
 		if sel, ok := e.Fun.(*ast.SelectorExpr); ok {
 			if root, _ := selPath(sel.X); root == nil || t.absOf(root) == nil {
 				out = append(out, t.pcs(sel.X, cond, hoist)...)
+			} else if t.spec.round6 {
+				// the receiver is read through a pointer field that may be nil (iter.go)
+				if c, ok := t.pcs6(sel.X, cond, hoist); ok {
+					out = append(out, c...)
+				}
 			}
 		}
 		if t.isOptCall(e) {
